@@ -222,57 +222,57 @@ func checkC03(c CaseTables) error {
 	return err
 }
 
-func TestC03(t *testing.T) {
-	rapid.Check(t, func(t *rapid.T) {
-		o := sgen.DefaultGenOpts()
-		o.MinTrips, o.MinStopTimes = 1, 1
-		o.ExplicitDefaults = rapid.Bool().Draw(t, "explicit")
-		f, _ := sgen.GenFeed(t, o)
-		ts := f.Tables()
-		inflate := rapid.IntRange(0, 199).Draw(t, "inflate") < map[bool]int{true: 6, false: 1}[tierThorough()]
-		if inflate {
-			ts = sgen.Inflate(ts, rapid.SampledFrom([]int{300, 1100, 2100}).Draw(t, "inflateTo"))
-			if !tierThorough() {
-				ts = sgen.Inflate(f.Tables(), 300)
+func TestC03(t *testing.T) { rapid.Check(t, propC03) }
+
+func propC03(t *rapid.T) {
+	o := sgen.DefaultGenOpts()
+	o.MinTrips, o.MinStopTimes = 1, 1
+	o.ExplicitDefaults = rapid.Bool().Draw(t, "explicit")
+	f, _ := sgen.GenFeed(t, o)
+	ts := f.Tables()
+	inflate := rapid.IntRange(0, 199).Draw(t, "inflate") < map[bool]int{true: 6, false: 1}[tierThorough()]
+	if inflate {
+		ts = sgen.Inflate(ts, rapid.SampledFrom([]int{300, 1100, 2100}).Draw(t, "inflateTo"))
+		if !tierThorough() {
+			ts = sgen.Inflate(f.Tables(), 300)
+		}
+	}
+	k := rapid.IntRange(0, 6).Draw(t, "nEdits")
+	mts, labels := sgen.Mutate(t, ts, k, false)
+	c := CaseTables{Tables: mts, Inherit: rapid.Bool().Draw(t, "inherit"), Labels: labels}
+	cls := []string{}
+	hostile := false
+	for _, l := range labels {
+		short := l
+		for i := range l {
+			if l[i] == ':' {
+				short = l[:i]
+				break
 			}
 		}
-		k := rapid.IntRange(0, 6).Draw(t, "nEdits")
-		mts, labels := sgen.Mutate(t, ts, k, false)
-		c := CaseTables{Tables: mts, Inherit: rapid.Bool().Draw(t, "inherit"), Labels: labels}
-		cls := []string{}
-		hostile := false
-		for _, l := range labels {
-			short := l
-			for i := range l {
-				if l[i] == ':' {
-					short = l[:i]
-					break
-				}
-			}
-			cls = append(cls, short)
-			switch short {
-			case "ref-unknown", "ref-blank", "parent-self", "parent-of-own-child", "duplicate-id", "delete-row", "parent-cycle-2", "parent-cycle-3", "parent-cycle-4":
-				hostile = true
-			}
+		cls = append(cls, short)
+		switch short {
+		case "ref-unknown", "ref-blank", "parent-self", "parent-of-own-child", "duplicate-id", "delete-row", "parent-cycle-2", "parent-cycle-3", "parent-cycle-4":
+			hostile = true
 		}
-		if inflate {
-			cls = append(cls, "inflated")
-		}
-		s, err := parseStatic(mts, sgen.Canonical(), c.Inherit)
-		if err != nil {
-			c03Rec.Eval(append(cls, "rejected-by-parser")...)
-			c03Rec.Exclude("archive rejected by ParseStatic")
-			return
-		}
-		c03Rec.Eval(dedupe(cls)...)
-		bound, _ := vtSafeBound(mts, s)
-		if hostile && bound >= 3 {
-			c03Rec.NontrivialCase(vt.Fingerprint(c), func() any {
-				return map[string]any{"edits": labels, "stops.txt": mts.Get("stops.txt"), "trips.txt": mts.Get("trips.txt")}
-			})
-		}
-		vt.Run(t, c03Rec, c, checkC03)
-	})
+	}
+	if inflate {
+		cls = append(cls, "inflated")
+	}
+	s, err := parseStatic(mts, sgen.Canonical(), c.Inherit)
+	if err != nil {
+		c03Rec.Eval(append(cls, "rejected-by-parser")...)
+		c03Rec.Exclude("archive rejected by ParseStatic")
+		return
+	}
+	c03Rec.Eval(dedupe(cls)...)
+	bound, _ := vtSafeBound(mts, s)
+	if hostile && bound >= 3 {
+		c03Rec.NontrivialCase(vt.Fingerprint(c), func() any {
+			return map[string]any{"edits": labels, "stops.txt": mts.Get("stops.txt"), "trips.txt": mts.Get("trips.txt")}
+		})
+	}
+	vt.Run(t, c03Rec, c, checkC03)
 }
 
 func vtSafeBound(ts sgen.Tables, s *gtfs.Static) (bound int, err error) {
